@@ -332,7 +332,8 @@ AnyFaulty(calls) ==
 
 AnyOver(calls) == \E i \in DOMAIN calls : calls[i].over
 
-\* p: a poll observation [lo, up, eos, res, n, env]
+\* p: a poll observation [lo, up, eos, res, n, env, nexts]
+\*    (nexts: what each entity stream would hand out if it were polled now)
 \* Returns the set of names of body predicates that p violates in history bs.
 PollFailures(bs, p, isGet) ==
   LET calls2 == ApplyEnvSeq(bs.calls, p.env, 1)
@@ -355,6 +356,11 @@ PollFailures(bs, p, isGet) ==
      \/ id = "C07" /\ \/ (firstTerminal /\ p.res = "end" /\ AnyFaulty(calls2))
                       \/ (firstTerminal /\ p.res = "end" /\ AnyOver(calls2))
                       \/ (hasAnn /\ AnyOver(calls2) /\ Lt(annv, del2))
+                      \* a stream that is about to fail, or to hand out bytes beyond its range, was not
+                      \* even looked at: the consumer polling past the announced length got a clean end
+                      \/ (firstTerminal /\ p.res = "end" /\
+                            \E i \in DOMAIN p.nexts :
+                               p.nexts[i].k = "fail" \/ (p.nexts[i].k = "yield" /\ p.nexts[i].n > 0))
      \* --- C12: hints exact and truthful, end-of-stream flag truthful
      \/ id = "C12" /\ \/ ~exact
                       \/ (bs.eosSaid /\ ContractOK(calls2) /\ p.res = "data" /\ p.n > 0)
